@@ -51,14 +51,14 @@ Proof.
 Qed.
 
 Lemma safe_char_facts : forall c, safe_char c = true ->
-  c <> DOLLAR /\ c <> QUOTE /\ c <> SLASH /\ c <> PCT /\ c < 128 /\ part_invalid c = false.
+  c <> DOLLAR /\ c <> QUOTE /\ c <> SLASH /\ c <> PCT /\ c < 128 /\ part_invalid c = false /\ c <> USCORE.
 Proof.
   intros c H. unfold safe_char, is_ascii_alpha, is_digit, DOT, USCORE in H.
-  unfold DOLLAR, QUOTE, SLASH, PCT, part_invalid, SLASH, PCT, HASHC.
+  unfold DOLLAR, QUOTE, SLASH, PCT, part_invalid, SLASH, PCT, HASHC, USCORE.
   repeat rewrite orb_true_iff in H. repeat rewrite andb_true_iff in H.
   repeat rewrite N.leb_le in H. repeat rewrite N.eqb_eq in H.
   assert (Hc : (65 <= c <= 90) \/ (97 <= c <= 122) \/ (48 <= c <= 57) \/ c = 33 \/ c = 38 \/ c = 40 \/ c = 41
-               \/ c = 43 \/ c = 44 \/ c = 45 \/ c = 46 \/ c = 59 \/ c = 61 \/ c = 64 \/ c = 95) by tauto.
+               \/ c = 43 \/ c = 44 \/ c = 45 \/ c = 46 \/ c = 59 \/ c = 61 \/ c = 64) by tauto.
   clear H.
   repeat split; lia.
 Qed.
@@ -202,6 +202,20 @@ Proof.
     + rewrite andb_true_iff, N.eqb_eq, IH. split.
       * intros [E [r Er]]. subst. exists r. reflexivity.
       * intros [r E]. inversion E; subst. split; [reflexivity | exists r; reflexivity].
+Qed.
+
+Lemma starts_with_like_plain : forall s p, has_char USCORE p = false -> starts_with_like s p = starts_with s p.
+Proof.
+  intros s p. revert s. induction p as [|y p IH]; intros s H; [destruct s; reflexivity|].
+  unfold has_char in H. cbn [existsb] in H. apply orb_false_iff in H as [H1 H2].
+  destruct s as [|x s]; [reflexivity|]. cbn [starts_with_like starts_with].
+  change (y =? 95) with (y =? USCORE). rewrite N.eqb_sym, H1. cbn [orb]. rewrite (IH s H2). reflexivity.
+Qed.
+
+Lemma storable_nouscore : forall s, storable s = true -> has_char USCORE s = false.
+Proof.
+  intros s H. apply has_char_false_iff. unfold storable in H. rewrite forallb_forall in H.
+  apply Forall_forall. intros x Hx E. subst. apply H in Hx. apply safe_char_facts in Hx. tauto.
 Qed.
 
 Lemma is_prefix_iff : forall p q, is_prefix p q = true <-> exists t, q = p ++ t.
